@@ -29,7 +29,7 @@ ASSUMPTIONS = [
 
 @st.composite
 def rt_case(draw):
-    case = draw(gens.input_case(gens.opts()))
+    case = draw(gens.input_case(gens.opts(long_strings=True)))
     case["mode"] = draw(st.sampled_from(["parsed", "parsed", "constructed"]))
     return case
 
